@@ -22,7 +22,7 @@ func init() {
 	}
 }
 
-var c10Entries = []string{"VerifTemplate", "VerifTail", "VerifTailNL"}
+var c10Entries = []string{"VerifTemplate", "VerifTail", "VerifTailNL", "VerifActionTail", "VerifClassTail"}
 
 func addC10Harness(ws *Workspace) error {
 	src, err := os.ReadFile(filepath.Join(verifRoot, "harness", "c10", "zz_verif_c10.go.txt"))
@@ -46,7 +46,7 @@ func checkC10(c *Ctx) error {
 	}
 	c.LoadTime = l.LoadTime
 	var jobs []*Job
-	for id := 0; id <= 24; id++ {
+	for id := 0; id <= 26; id++ {
 		jobs = append(jobs, &Job{PkgPath: pegPkg, Entry: "VerifTemplate", Args: []int{id}, Label: "front-end"})
 	}
 	K := 2
@@ -56,6 +56,8 @@ func checkC10(c *Ctx) error {
 	for k := 0; k <= K; k++ {
 		jobs = append(jobs, &Job{PkgPath: pegPkg, Entry: "VerifTail", Args: []int{k}, Label: "front-end"})
 		jobs = append(jobs, &Job{PkgPath: pegPkg, Entry: "VerifTailNL", Args: []int{k}, Label: "front-end"})
+		jobs = append(jobs, &Job{PkgPath: pegPkg, Entry: "VerifActionTail", Args: []int{k + 1}, Label: "front-end"})
+		jobs = append(jobs, &Job{PkgPath: pegPkg, Entry: "VerifClassTail", Args: []int{k + 1}, Label: "front-end"})
 	}
 	cfg := symx.DefaultConfig()
 	cfg.ValidateEvery = 25
@@ -63,7 +65,7 @@ func checkC10(c *Ctx) error {
 	runner := &NativeRunner{Dir: ws.Repo, PkgPath: pegPkg, Entries: c10Entries, InPkg: true}
 	res := RunJobs(l, jobs, c.Workers, cfg, c.Deadline)
 	c.Programs = 1
-	c.Bounds["templates"] = "25 templates of documented constructs with 1-3 symbolic hole characters (any code point unless an assumption restricts it)"
+	c.Bounds["templates"] = "27 templates of documented constructs with 1-3 symbolic hole characters (any code point unless an assumption restricts it)"
 	c.Bounds["tails"] = "valid header + 'R <- ' + K arbitrary characters (with and without final newline), K <= 2 quick / 3 thorough"
 	c.Bounds["outside"] = "texts that differ from a template in more than its holes; tails longer than K; non-ASCII letters in \"...\" and [[...]] (documentation silent); behaviour of the compiled parser for the denoted tree (C01)"
 	c.Assumptions = append(c.Assumptions, "A-SSA", "A-SMT", "oracle: vhlib/pegread, an independent recursive-descent reader of docs/peg-file-syntax.md and the property's escape table",
